@@ -255,6 +255,9 @@ def parse_rvalue(s):
     p = parse_place(s)
     if p is not None:
         return ("use", ("copy", p))
+    # unit enum variant / unit struct: a bare path such as `Option::<T>::None`
+    if re.match(r"^[A-Za-z_][\w:<>,&' \[\]\(\)\{\}@/\.\-#\*;]*::[A-Z]\w*$", s) and not s.startswith(("const ", "copy ", "move ")):
+        return ("aggregate", s, [])
     return ("raw", s)
 
 
